@@ -169,6 +169,8 @@ pub struct RunLog {
     pub setup_error: Option<String>,
     /// the program ended with the benign continuation (reconnect + poll until idle)
     pub epilogue: bool,
+    /// the generator was allowed to make the broker violate the protocol
+    pub hostile: bool,
     /// index of the first step of the benign continuation
     pub epilogue_from: Option<usize>,
 }
